@@ -158,6 +158,7 @@ func runC05(c *Ctx) {
 	rawBytes(c)
 	singleDispatch(c)
 	idAlphabet(c)
+	seedTransformsKeepSeeds(c)
 	const R = "loop-totality"
 	c.rule(R, loopRuleText)
 	// graph assembly only: attribute loops (licences, hashes, …) belong to C02/C03
